@@ -587,6 +587,7 @@ class Exec:
                 self._do_set(i, op, URL)
             elif k == "advance":
                 CLOCK.now += op["dt"]
+                self.blind_epochs.add(i)  # the jar is not called
             elif k == "clear":
                 self.jar.clear()
                 self.ref.clear()
@@ -1206,6 +1207,7 @@ class WireExec(Exec):
                             self.history.append((out.cookie, i))
                 elif k == "advance":
                     CLOCK.now += op["dt"]
+                    self.blind_epochs.add(i)
                 elif k == "clear":
                     self.jar.clear()
                     self.ref.clear()
